@@ -25,7 +25,9 @@ def run(ctx):
             c.bsize = rng.choice([7, 4096, 1 << 20]); c.no_progress = rng.random() < 0.2
             nf = rng.choice([1, 2, 3])
             c.files = [(f'f{j}', br.gen_data(rng, rng.choice([0, 1, 50, 5000, 8192, 65536, 3 * c.bsize + 1 if c.bsize > 7 else 40, 2 * c.bsize if c.bsize >= 4096 else 4096]), False)) for j in range(nf)]
-            c.driver = ['parfile', 'parblock'][i % 2]; c.workers = rng.choice([1, 2, 4]); c.prior = rng.choice(['absent', 'longer'])
+            if rng.random() < 0.2 and c.bsize >= 4096:
+                c.files.append(('sp', br.gen_data(rng, rng.choice([70, 130]) * br.K + rng.randrange(br.K), True)))      # holes: nothing of an old destination may show through
+            c.driver = ['parfile', 'parblock'][i % 2]; c.workers = rng.choice([1, 2, 4]); c.prior = rng.choice(['absent', 'longer', 'longer'])
             c.reflink = ['never', 'auto', 'always'][(i // 2) % 3]
             c.extra, c.tag = [], 'gen'
             kind = rng.choice(['native', 'unsup', 'hard', 'cloneok', 'cloneok'])
@@ -105,7 +107,7 @@ def run(ctx):
                     if r.cls != '0' and not seen and issued:
                         continue    # the process exits on the first error: this file's copy was cut short before its clone request
                     good = (len(seen) == 1) == issued and (not seen or (seen[0] == 'clone:1') == (outcome == 'cloned'))
-                    if outcome == 'copy' and r.cls == '0' and scen.data_bytes(dict((os.path.basename(d), dd) for _, d, dd in pairs)[os.path.basename(dst)])[0] > 0:
+                    if outcome == 'copy' and r.cls == '0' and scen.data_bytes(dict((os.path.basename(d), dd) for _, d, dd in pairs)[os.path.basename(dst)])[1]:      # (a file that is one hole needs no data call)
                         good = good and 'data' in toks
                 if not good:
                     ctx.cov['disagreements_checked'] += 1
